@@ -58,13 +58,14 @@ for _d in sorted(glob.glob(f'{V}/seeded/*/')):
     if _m.get('caught_after'):
         _tot['after'] += 1
 summary13 = (f"Totals at the final commit (every change re-confirmed serially by the documented route — `git -C /repo apply`, run the "
-             f"quick check, `git -C /repo checkout -- .` — at /repo HEAD): {_tot['n']} seeded changes in three rounds (4 + 3 + 3 per "
+             f"quick check, `git -C /repo checkout -- .` — at /repo HEAD): {_tot['n']} seeded changes in four rounds (4 + 3 + 3 + 2 per "
              f"property; three were dropped when a later repo fix neutralised them), {_tot['input']} caught with a concrete failing "
              f"input, {_tot['sibling']} of them by a sibling property's check rather than the check of the property they were seeded "
              f"under (a criteria-parser cache seeded under C01/C05/C12 is C15's subject; a thread-shared array context under C13 is "
              f"C07's; a reset-walk change under C05 is caught by C04). {_tot['after']} were MISSED on first contact and are caught "
              f"only after the generator/oracles were widened in the direction they pointed to (first-contact miss rate: round 1 "
-             f"about one third, round 2 about one sixth, round 3 — the harder kinds — about one third).\n\n")
+             f"about one third, round 2 about one sixth, round 3 — the harder kinds — about one third, round 4 — other "
+             f"mechanism families — 13 of 40).\n\n")
 head13 = summary13 + ('Produced by fresh sub-agents that saw only the property text and a scratch worktree of /repo (nothing from /verif); each '
           'keeps the 2 988 tests green and comes with a demo that fails only with the change. "caught (input)" = the check exits 1 '
           'with a VIOLATION line whose replay holds a concrete failing input. The last column says what had to be strengthened '
